@@ -26,6 +26,10 @@ var c16subs = []c16sub{
 	{" /* a */ /* b */ ", "block-comment"}, {" -- a\n/* b */ ", "line-comment"}, {" /* a */\n-- b\n ", "block-comment"},
 	{" -- c\n", "line-comment"}, {"\n--\n", "line-comment"}, {" -- ; \n", "line-comment"}, {" --c\r\n ", "line-comment"},
 	{" /* c */ ", "block-comment"}, {" /**/ ", "block-comment"}, {" /* -- */ ", "block-comment"}, {" /* ' */ ", "block-comment"}, {" /* ; */ ", "block-comment"}, {"\n/* a\nb */\n", "block-comment"}, {" /*/ c */ ", "block-comment"}, {" /***/ ", "block-comment"}, {" /****/ ", "block-comment"}, {" /* c ***/ ", "block-comment"}, {" /*** c ***/ ", "block-comment"}, {" /*******/ ", "block-comment"},
+	// what the comment says does not matter: a digit, a quote, the other comment opener or characters outside ASCII
+	// (the replacement character included) directly after the opener or further in
+	{" --1st\n", "line-comment"}, {" --2024-05-01 x\n", "line-comment"}, {" -- \ufffd tail\n", "line-comment"}, {" --é👍\n", "line-comment"}, {" --'\"/*\n", "line-comment"},
+	{" /*1*/ ", "block-comment"}, {" /* \ufffd tail */ ", "block-comment"}, {" /*é👍*/ ", "block-comment"}, {" /*'\"--*/ ", "block-comment"}, {" /*\xff*/ ", "block-comment"},
 }
 
 func tokClass(t gram.Tok) string {
